@@ -313,6 +313,29 @@ impl<'a> Exec<'a> {
             Op::Reopen { lazy, remove_all_idx, damage } => {
                 self.reopen(*lazy, *remove_all_idx, damage).await?;
             }
+            Op::Burst { n, vlen } => {
+                let len = resolve_vlen(*vlen, self.cfg.keylen, &None);
+                let mut items = vec![];
+                for j in 0..*n {
+                    let key = 200u8.wrapping_add(j % 40);
+                    let val = value_bytes(idx * 256 + j as usize, len, 0);
+                    let ts = 1_000_000 + idx as u64 * 256 + j as u64;
+                    self.model.write(key, ts, val.clone(), None);
+                    items.push((self.key(key), val, ts));
+                }
+                self.stats.writes += *n as u64;
+                let results = {
+                    let s = self.s();
+                    let futs: Vec<_> = items.into_iter().map(|(kb, val, ts)| async move { s.write(&kb, Bytes::from(val), ts, None).await }).collect();
+                    futures::future::join_all(futs).await
+                };
+                for r in results {
+                    if let Err(e) = r {
+                        return self.fail("write/err", format!("burst: {:#}", e));
+                    }
+                }
+                self.labels.insert("burst");
+            }
             Op::Fail { .. } | Op::Cancel { .. } => {
                 // interpreted by the property modules that use them
             }
